@@ -270,9 +270,11 @@ func VH19b_zero() {
 	side := vt.Listen(sock, "a")
 	p1 := side.Peer("p1")
 	switch verif.Choice("opt", 3) {
-	case 0: // receive deadline 0: Recv waits
-		if sock.SetOption(mangos.OptionRecvDeadline, time.Duration(0)) != nil {
-			verif.Assume(false)
+	case 0: // receive deadline 0 - set explicitly, or never set - : Recv waits
+		if verif.Choice("deadline-set-explicitly", 2) == 1 {
+			if sock.SetOption(mangos.OptionRecvDeadline, time.Duration(0)) != nil {
+				verif.Assume(false)
+			}
 		}
 		var err error
 		g := verif.Go("recv", func() { _, err = sock.RecvMsg() })
@@ -286,22 +288,52 @@ func VH19b_zero() {
 		}
 		verif.Assert(!g.Done() || err != mangos.ErrRecvTimeout, lab+"/zero-recv-deadline-times-out")
 		verif.Reach("recv-waits")
-	case 1: // send deadline 0: a Send that cannot complete waits
-		if sock.SetOption(mangos.OptionSendDeadline, time.Duration(0)) != nil {
-			verif.Assume(false)
+	case 1: // send deadline 0 - set explicitly, or simply never set - : a Send that cannot complete waits
+		if verif.Choice("deadline-set-explicitly", 2) == 1 {
+			if sock.SetOption(mangos.OptionSendDeadline, time.Duration(0)) != nil {
+				verif.Assume(false)
+			}
+		}
+		// short queues and a stalled peer, so that a send really has to wait within a few messages (the per-connection
+		// queue is sized when the peer attaches: reconnect it after shortening)
+		p1.Drop()
+		verif.Quiesce()
+		sock.SetOption(mangos.OptionWriteQLen, 1)
+		p1 = side.Peer("p1b")
+		verif.Quiesce()
+		var route []byte
+		if proto == "xrep" || proto == "xrespondent" {
+			p1.Deliver([]byte{0x80, 0, 0, 1, 'q'})
+			verif.Quiesce()
+			if rm, rerr := sock.RecvMsg(); rerr == nil {
+				route = append(route, rm.Header...)
+				rm.Free()
+			}
 		}
 		p1.SendMode = vt.SendBlock
 		timedOut := false
 		for i := 0; i < 6; i++ {
+			if proto == "rep" || proto == "respondent" {
+				p1.Deliver([]byte{0x80, 0, 0, byte(i + 2), 'q'})
+				verif.Quiesce()
+				if _, rerr := sock.RecvMsg(); rerr != nil {
+					break
+				}
+			}
 			var err error
 			m := mangos.NewMessage(1)
 			m.Body = append(m.Body, 'x')
-			if proto == "xpair1" || proto == "xstar" {
+			m.Header = append(m.Header, route...)
+			switch proto {
+			case "xpair1", "xstar":
 				m.Header = append(m.Header, 0, 0, 0, 0)
+			case "xreq", "xsurveyor":
+				m.Header = append(m.Header, 0x80, 0, 0, 1)
 			}
 			g := verif.Go("send", func() { err = sock.SendMsg(m) })
 			verif.Quiesce()
 			if !g.Done() {
+				verif.Reach("send-had-to-wait")
 				for k := 0; k < 3; k++ {
 					verif.FireTimer()
 				}
